@@ -63,7 +63,9 @@ def _nf_seq(seq, flags):
     for op, av in seq:
         if op is sc.AT:
             nm = str(av)
-            if "BEGINNING" in nm and "STRING" not in nm:
+            if "BEGINNING" in nm and "STRING" in nm:
+                out.append(("at", "begin"))          # \A: the start of the text, which is what ^ is without MULTILINE
+            elif "BEGINNING" in nm and "STRING" not in nm:
                 out.append(("at", "begin_line" if flags & re.MULTILINE else "begin"))
             elif "END" in nm and "STRING" not in nm:
                 out.append(("at", "end_line" if flags & re.MULTILINE else "end"))
@@ -102,6 +104,37 @@ def nf(pattern: str, flags: int = 0):
     p = sp.parse(pattern, flags)
     fl = p.state.flags | flags
     return tuple(_nf_seq(p, fl))
+
+
+def test_nf(pattern: str, flags: int = 0, method: str = "search"):
+    """Normal form of a pattern used as a *test* (does the text match?) through ``re.<method>``: ``match`` and ``fullmatch``
+    anchor at the start, ``fullmatch`` also at the very end; ``$`` is ``\\n?\\Z`` (as a test - not for what a match spans)."""
+    seq = list(nf(pattern, flags))
+    if method in ("match", "fullmatch") and not (seq and seq[0] == ("at", "begin")):
+        seq.insert(0, ("at", "begin"))
+    if method == "fullmatch":
+        seq.append(("at", "AT_END_STRING"))
+    out = []
+    nl = frozenset("\n")
+    for it in seq:
+        if it == ("at", "end"):
+            absorbed = bool(out) and out[-1][0] == "rep" and out[-1][2] is None and "\n" in out[-1][3]
+            if not absorbed:        # (an unbounded run that may take the line feed already covers the optional one)
+                out.append(("rep", 0, 1, nl, True))
+            out.append(("at", "AT_END_STRING"))
+        else:
+            out.append(it)
+    # ... \n? \Z \Z  ->  ... \n? \Z
+    while len(out) >= 2 and out[-1] == ("at", "AT_END_STRING") and out[-2] == ("at", "AT_END_STRING"):
+        out.pop()
+    return tuple(out)
+
+
+def same_test(pattern: str, flags: int, method: str, expected: str, eflags: int = 0, emethod: str = "search") -> bool:
+    try:
+        return test_nf(pattern, flags, method) == test_nf(expected, eflags, emethod)
+    except Exception:
+        return False
 
 
 def same(pattern: str, flags: int, expected: str, eflags: int = 0) -> bool:
